@@ -178,23 +178,9 @@ pub fn draw_sub(r: &mut Prng, f: &FactSet, source: usize, allow_bad: bool) -> Op
 /// Size thresholds of the library's own limits: more than 65 535 terms (C10) / more than 65 535 records of a kind (C03)
 fn gen_threshold(prop: &str, r: &mut Prng, seed: u64, run: u64) -> Scenario {
     let mut facts = FactSet::default();
-    let mut ids: std::collections::BTreeSet<u32> = Default::default();
     if prop == "C10" {
         let n = r.urange(65_530, 66_200);
-        while ids.len() < n {
-            ids.insert(r.range(1, 9_999_999) as u32);
-        }
-        let v: Vec<u32> = ids.iter().copied().collect();
-        for (k, id) in v.iter().enumerate() {
-            facts.terms.push(crate::facts::TermFact { id: *id, name: format!("t{id}"), obsolete: false, replacement: None });
-            // a shallow forest: every 7th term is a root, the others hang below the previous root
-            if k % 7 != 0 {
-                facts.isa.push((*id, v[k - k % 7]));
-            }
-        }
-        for j in 0..5u32 {
-            facts.omim.push(crate::facts::Rec { id: j + 1, name: format!("disease {j}"), terms: vec![v[j as usize]] });
-        }
+        facts = crate::facts::many_terms_facts(r, n, false);
     } else {
         // a handful of terms, N just below / above u16::MAX for one kind; the library documents an error above it
         for id in [1u32, 118, 200, 300] {
